@@ -1049,10 +1049,10 @@ func check(c *Ctx, r *Report) error {
 	}
 	ns := TierN(c.Tier, 8, 80, 24)
 	for k := 0; k < ns; k++ {
-		a := shapeSpec{Name: []string{"origin-sphere", "box", "roundbox"}[k%3], Margin: [6]float64{.2, .15, .3, .25, .2, .1}}
+		a := shapeSpec{Name: []string{"origin-sphere", "rotbox", "sphere"}[k%3], Margin: [6]float64{.2, .15, .3, .25, .2, .1}}
 		a.Scale = []float64{1 + rng.Float(), 0.5 + 0.5*rng.Float(), 0.3 + 0.25*rng.Float()}
 		b := shapeSpec{Name: []string{"sphere", "rotbox"}[k/3%2], Margin: [6]float64{.2, .15, .3, .25, .2, .1}}
-		st := stateSpec{A: renderSpec{Shape: a, Cells: []int{8, 12, 16}[rng.Intn(3)]}, B: b}
+		st := stateSpec{A: renderSpec{Shape: a, Cells: []int{12, 16, 20}[rng.Intn(3)]}, B: b}
 		if k%4 == 3 {
 			st.A.Renderer = "v1"
 			st.A.RCond = []float64{0, 1e-3, 0.1}[rng.Intn(3)]
